@@ -17,20 +17,23 @@ from vkit import world
 from vkit.runner import Result
 from vkit.world import eliot
 
-from eliot import start_action, register_exception_extractor, current_action
+from eliot import start_action, register_exception_extractor, current_action, log_call
 
 ID = "C03"
-CASE_TIMEOUT = 10  # a logging call that does not return within 10 s is reported as a hang
+CASE_TIMEOUT = 60  # a logging call that does not return within 60 s is reported as a hang
 LEVEL = "exploration"
 SHARDS = 4
 RULE = (
     "case = (nesting depth 1-3, catch depth, raise class or normal exit (incl. a falsy exception object and one whose bool() raises), extractor registration = "
-    "assignment of {none, returns fields, raises, returns fields named like the action's own exception/reason} to each of {A, B, C, Exception}, style in {with, "
+    "assignment of {none, returns fields, raises, returns fields named like the action's own exception/reason} to each of {A, B, C, Exception}, style in {log_call, with, "
     "context()+finish, finish without context}, extra finish calls in {0, 1, 2 (one with an exception "
     "argument)}, start fields on/off, success fields on/off, optionally while an unrelated exception is being "
     "handled (inside except / finally)); full product for depth 1, registrations restricted to 9 "
     "representatives for depth 2-3; plus all histories of <= 4 events over {fail A/B/C, register "
-    "extractor for A/B/C (returning/raising), succeed} with registrations arriving after failures; non-trivial = case that raises"
+    "extractor for A/B/C (returning/raising), succeed} with registrations arriving after failures; plus 2-3 threads "
+    "failing actions concurrently (extractor raising / returning fields / OSError) against every other logging "
+    "operation, ALL interleavings with scheduling points inside the logging calls, each thread's log compared "
+    "with the sequential schedule; non-trivial = case that raises"
 )
 ASSUMPTIONS = [
     "exception classes and extractor behaviours from a fixed alphabet",
@@ -133,7 +136,18 @@ def units(tier):
         out.append([2, ri])
         out.append([3, ri])
     out.append(["history"])
+    out += [["conc", i] for i in range(len(conc_harnesses()))]
     return out
+
+
+def conc_harnesses():
+    """Two threads failing actions at the same time, interleaved inside the logging calls
+    (vkit/proj.py): what one thread's action records must not depend on what another thread's
+    logging call is doing at that moment."""
+    from vkit import proj
+
+    return proj.harnesses(["badx", "errno", "custom"], pairs_with=proj.OPS,
+                          two_op=[(("badx", "custom"), ("custom", "badx")), (("badx",), ("errno",), ("m",))])
 
 
 HIST_CLASSES = [A, B, C]
@@ -147,6 +161,9 @@ def history_events():
 
 
 def cases(unit, tier):
+    if unit[0] == "conc":
+        yield ["conc", conc_harnesses()[unit[1]]]
+        return
     if unit == ["history"]:
         import itertools as it
 
@@ -161,7 +178,7 @@ def cases(unit, tier):
     if ri == 0:
         regs = [(0, 0, 0, 0), (1, 1, 1, 1)]
     for reg in regs:
-        for style in (0, 1, 2):
+        for style in (0, 1, 2, 3):
             for xf in (0, 1, 2):
                 for sf in (0, 1):
                     for ef in (0, 1):
@@ -174,7 +191,8 @@ def cases(unit, tier):
                                 yield [depth, ri, list(reg), style, xf, sf, ef, up, 3]
                             if reg in SMALL_REGS[:2] and xf == 0 and sf == 1:
                                 # the same through a typed action (ActionType with declared success fields)
-                                yield [depth, ri, list(reg), style, xf, sf, ef, up, 4]
+                                if style != 3:
+                                    yield [depth, ri, list(reg), style, xf, sf, ef, up, 4]
                             # the same while another exception is being handled (except / finally)
                             if reg in SMALL_REGS[:2] and xf == 0 and sf == 0:
                                 yield [depth, ri, list(reg), style, xf, sf, ef, up, 1]
@@ -275,6 +293,15 @@ def run_history(events):
 def run_case(case):
     if case[0] == "history":
         return run_history(case[1])
+    if case[0] == "conc":
+        from vkit import proj
+
+        try:
+            execs, states, transitions, norders, viol = proj.run(case[1])
+        finally:
+            world.fresh()
+        return Result(outcome=["conc", execs, norders], nontrivial=norders > 1, states=states, transitions=transitions,
+                      executions=execs, violations=[("conc:" + s_, d) for s_, d in viol[:3]])
     ambient = case[8] if len(case) > 8 else 0
     depth, ri, reg, style, xf, sf, ef, up = case[:8]
     viol = []
@@ -296,11 +323,14 @@ def run_case(case):
         def level(i):
             """Run action i (0 = outermost); the innermost raises."""
             start_fields = {"sfield": i} if sf else {}
-            if ambient == 4:
+            if style == 3:
+                a = None  # created by log_call when the decorated function is called
+            elif ambient == 4:
                 a = TYPED[i](**start_fields)
             else:
                 a = start_action(action_type="t%d" % i, **start_fields)
-            actions.append(a)
+            if a is not None:
+                actions.append(a)
 
             def body():
                 if ef or ambient == 4:
@@ -322,7 +352,24 @@ def run_case(case):
                     raised[0] = e
                     raise e
 
-            if style == 0:
+            if style == 3:
+                def inner():
+                    nonlocal a
+                    a = current_action()
+                    actions.append(a)
+                    body()
+
+                if sf:
+                    @log_call(action_type="t%d" % i, include_result=False)
+                    def fn(sfield):
+                        inner()
+                else:
+                    @log_call(action_type="t%d" % i, include_result=False)
+                    def fn():
+                        inner()
+
+                fn(**start_fields)
+            elif style == 0:
                 with a:
                     body()
             elif style == 1:
